@@ -16,6 +16,7 @@ package parser
 //               accepts the pair at decode time.
 
 import (
+	"strings"
 	"errors"
 
 	"github.com/prometheus/common/model"
@@ -233,4 +234,13 @@ func verifStringErr(n *yaml.Node) bool {
 // n decodes into a Go string and sets it (not null, no error); the text is n.Value
 func verifStringSet(n *yaml.Node) bool {
 	return verifAnd(!verifStringErr(n), !verifIsNull(n))
+}
+
+// pint rejects recording rule names with braces via strings.ContainsAny(name, "{}"): on an atom that is the
+// uninterpreted "hasBraces" attribute the reference uses too (natively the real function runs on the spelled atom)
+func verifStub_strings_ContainsAny(s, chars string) bool {
+	if chars == "{}" {
+		return verifPred("hasBraces", s)
+	}
+	return strings.ContainsAny(s, chars)
 }
